@@ -1186,11 +1186,15 @@ def step (F : Facts) (s : State) : Move → State × Out
                 free := s.free.filter (· ≠ ip),
                 admin := s.admin.set ip { key := adminKey text, policy := policy, node := "", uid := 0, reserved := true, ts := s.clock } }, {})
   | .adminUnreserve ip =>
-    match s.admin.get ip with
+    -- the administrator deletes the labelled object; `handleFIPUnassign` drops the cached record if it is (still) the
+    -- reservation
+    match s.alloc.get ip with
     | none => (s, Out.err "not-found")
-    | some _ =>
-      ({ s with store := s.store.erase ip, alloc := s.alloc.erase ip, free := ip :: s.free.filter (· ≠ ip),
-                admin := s.admin.erase ip }, {})
+    | some r =>
+      if !(r.reserved && r.key.isAdmin) then (s, Out.err "not-reserved")
+      else
+        ({ s with store := s.store.erase ip, alloc := s.alloc.erase ip, free := ip :: s.free.filter (· ≠ ip),
+                  admin := s.admin.erase ip }, {})
   | .syncPodIPs fault => syncPodIPs (withFaults s fault 0)
   | .apiRelease ip k fault pfault => apiRelease F (withFaults s fault pfault) ip k
   | .reload pools fault => reload (withFaults s fault 0) pools
